@@ -704,6 +704,36 @@ func init() {
 				},
 			},
 			{
+				// every text of up to 4 symbols over the alphabet the scanners' framing detection looks at
+				// (backslash, x, hex digits of both cases, a non-hex letter, the byte-order bytes), bare and behind a 4-byte SRID prefix
+				Name: "scanner-all-short-texts", Count: h.Fixed(2*11111, 2*11111), Exhaustive: h.Always,
+				Run: func(c *h.Ctx, idx uint64, r *h.Rand) {
+					alphabet := []byte{'\\', 'x', '0', '1', '3', 'a', 'F', 'g', 0x00, 0x01}
+					k := idx / 2
+					var in []byte
+					for n, span := 0, uint64(1); n <= 4; n, span = n+1, span*10 {
+						if k < span {
+							for i := 0; i < n; i++ {
+								in = append(in, alphabet[k%10])
+								k /= 10
+							}
+							break
+						}
+						k -= span
+					}
+					what := "short text"
+					if idx%2 == 1 {
+						in = append([]byte{0xe6, 0x10, 0, 0}, in...)
+						what = "short text behind a 4-byte SRID prefix"
+					}
+					c05run(c, "wkb", in, what)
+					c.Nontrivial(h.Mix(0x5ca7, idx))
+					if idx%2000 == 7 {
+						c.Sample(map[string]interface{}{"input": string(in), "how": what})
+					}
+				},
+			},
+			{
 				Name: "wkt-all-short-sentences", Count: func(tier string) uint64 {
 					if tier == "thorough" {
 						return 1 + 16 + 256 + 4096 + 65536 + 1048576
@@ -874,13 +904,17 @@ func init() {
 							c.Fail("", "a decoder panicked on a large valid input", map[string]interface{}{"case": det, "panic": sv(ps) + sv(pb)})
 							continue
 						}
-						if (es == nil) != (eb == nil) {
+						if (es == nil) != (eb == nil) && !strings.Contains(shape.name, "nested") { // (a depth limit is legitimate)
 							c.Fail("", "a decoder accepts a valid structure at one size and rejects it at another", map[string]interface{}{"case": det, "small_err": sv(es), "big_err": sv(eb)})
 							continue
 						}
 						scale := float64(len(big)) / float64(len(small))
 						if float64(ub) > 4*scale*float64(us)+float64(1<<20) {
-							c.Fail("", "allocation grows faster than the input: 16 times the elements cost more than 4 x 16 times the memory", map[string]interface{}{"case": det})
+							key := ""
+							if (fam == "json" || fam == "bson") && strings.Contains(shape.name, "collections nested") {
+								key = "C05/nested-collections-quadratic-allocation"
+							}
+							c.Fail(key, "allocation grows faster than the input: 16 times the elements cost more than 4 x 16 times the memory", map[string]interface{}{"case": det})
 						}
 						if es == nil {
 							c.Count("large_valid_inputs_decoded", 1)
@@ -973,6 +1007,20 @@ var c05shapes = func() []struct {
 				}
 			}
 			return m
+		}},
+		{"collections nested k deep around a line string", func(k int) orb.Geometry {
+			var g orb.Geometry = orb.LineString(pts(0, 3))
+			for i := 0; i < k; i++ {
+				g = orb.Collection{g}
+			}
+			return g
+		}},
+		{"collections nested k/8 deep, each level with a point beside the nested one", func(k int) orb.Geometry {
+			var g orb.Geometry = orb.LineString(pts(0, 3))
+			for i := 0; i < k/8; i++ {
+				g = orb.Collection{pt(i), g}
+			}
+			return g
 		}},
 		{"one ring of k points among k/10 small rings", func(k int) orb.Geometry {
 			p := make(orb.Polygon, 0, k/10+1)
